@@ -1,9 +1,88 @@
 import Okane.Drv.IOUtil
-/-! Driver commands for C07 (stub: replaced when the property's streams are built). -/
-namespace Okane.Drv.C07
+import Okane.Model.ExprSyntax
+import Okane.Spec.Literal
+import Okane.Base.Num
+/-!
+Driver for C07.
 
-def main (args : List String) : IO Unit := do
-  let _ := args
-  pure ()
+`drv c07 lit`  : line `<enc text>`             -> model of `PrettyDecimal::from_str` + `to_string`
+`drv c07 pos`  : line `<position> <enc text>`  -> the model's expression / amount parser on the text the position
+                 hands to it (`<lit> USD` followed by what the template puts after it)
+`drv c07 spec` : line `<enc text>`             -> the executable *statement* (`Spec/Literal.lean`), for cross-checking
+                 the python oracle: `wf=<0|1> rep=<0|1> value=<num/den> scale=<n> grouped=<0|1>`
+Records as in `harness/src/c07.rs`; `partial` = the model parser stopped before the end of the literal (no prediction).
+-/
+namespace Okane.Drv.C07
+open Okane Okane.Literal Okane.ExprSyntax
+
+def fmtTag : Option Fmt → String
+  | none => "n"
+  | some .plain => "p"
+  | some .comma3dot => "c"
+
+def showDec (d : PDec) : String :=
+  s!"(dec {if d.neg then 1 else 0} {d.mant} {d.scale} {fmtTag d.fmt})"
+
+def okRec (d : PDec) : String := s!"ok {showDec d} print={Sexp.encode (String.ofList (printPDec d))}"
+
+def litRec (s : List Char) : String :=
+  match scan s with
+  | .ok d => okRec d
+  | .err (.unexpectedChar i) => s!"err UnexpectedChar {i}"
+  | .err (.commaRequired i) => s!"err CommaRequired {i}"
+  | .err (.unexpectedEnd n) => s!"err UnexpectedEnd {n}"
+  | .err .invalidDecimal => "err InvalidDecimal"
+  | .panic p => s!"panic {Sexp.encode p}"
+  | .fuelOut => "fuel"
+
+def posRec (pos : String) (lit : List Char) : String :=
+  let usd := " USD".toList
+  let finishV (r : PRes VExpr) (suffix : List Char) (pick : VExpr → Option (PDec × String)) : String :=
+    match r with
+    | .ok v rest =>
+      match pick v with
+      | some (d, c) => if c == "USD" && rest == suffix then okRec d else "partial"
+      | none => "partial"
+    | .fail _ => "parse-err"
+    | .fuelOut => "fuel"
+  let plain : VExpr → Option (PDec × String)
+    | .amt d c => some (d, c)
+    | _ => none
+  match pos with
+  | "paren" =>
+    let t := '(' :: lit ++ usd ++ ")\n".toList
+    finishV (parseValueExpr t) ['\n'] fun
+      | .paren (.val (.amt d c)) => some (d, c)
+      | _ => none
+  | "neg" =>
+    let t := "(-".toList ++ lit ++ usd ++ ")\n".toList
+    finishV (parseValueExpr t) ['\n'] fun
+      | .paren (.neg (.val (.amt d c))) => some (d, c)
+      | _ => none
+  | "lot" => finishV (parseValueExpr (lit ++ usd ++ "}\n".toList)) "}\n".toList plain
+  | "lottotal" => finishV (parseValueExpr (lit ++ usd ++ "}}\n".toList)) "}}\n".toList plain
+  | "format" | "pricedb" => finishV (amount (lit ++ usd ++ ['\n'])) ['\n'] plain
+  | _ => finishV (parseValueExpr (lit ++ usd ++ ['\n'])) ['\n'] plain
+
+def specRec (s : List Char) : String :=
+  let b (x : Bool) := if x then "1" else "0"
+  s!"wf={b (Spec.WellFormedLiteral s)} rep={b (Spec.Representable s)} value={ratStr (Spec.litValue s)} scale={Spec.litScale s} grouped={b (Spec.hasThousands s)}"
+
+def main (args : List String) : IO Unit :=
+  match args with
+  | ["pos"] => forEachLine fun line =>
+    match words line with
+    | [p, t] => match Sexp.decode t with
+      | some s => posRec p s.toList
+      | none => "bad-case"
+    | _ => "bad-case"
+  | ["spec"] => forEachLine fun line =>
+    match Sexp.decode line.trimAscii.toString with
+    | some s => specRec s.toList
+    | none => "bad-case"
+  | _ => forEachLine fun line =>
+    match Sexp.decode line.trimAscii.toString with
+    | some s => litRec s.toList
+    | none => "bad-case"
 
 end Okane.Drv.C07
